@@ -52,6 +52,8 @@ def run(tier, seed, res, lean):
     from .. import suite_compile
     for p in [p for i in range(6 if tier == 'quick' else 40) for p in suite_compile.run_instance_requests(seed * 83 + i)][:3]:
         res.violations.append(Violation('c03-instance-request', p['msg'][:400], {'suite': 'S-COMPILE/instance', **p}))
+    for p in [p for i in range(6 if tier == 'quick' else 40) for p in suite_compile.run_hash_digest(seed * 87 + i)][:3]:
+        res.violations.append(Violation('c03-hash-digest-executes-upstream', p['msg'][:400], {'suite': 'S-COMPILE/hash-digest', **p}))
     # pipeline level: the id mappings of GroupBy / Split / Join are key material kept once per pipeline object; reading ids again
     # (also after another pipeline built from the same layer object was used) executes nothing (S-REL, memo part)
     from .. import suite_rel
